@@ -270,6 +270,18 @@ theorem parse_magnitude_int_iff (g : Grammar) (t : String) (c : Conv α) (hg : G
   · rw [he] at hf; cases hf
   · exact hw
 
+/-- **C17 (an int was written as an int)**: if an accepted quantity has an `int` magnitude, that
+    magnitude is the decimal value of a text of the shape `[+-]digits` — no `.`, no exponent —
+    with the sign written. -/
+theorem parse_int_magnitude_is_integer_literal (g : Grammar) (t : String) (c : Conv α) (hg : Good c.st) (q : Qty α)
+    (h : (CM.exec (parseQuantity g t : CM α (Qty α)) c).1 = .ok q) (hi : q.mag.isInt = true) :
+    ∃ text : String, (stripSign text.toList).isEmpty = false ∧ (stripSign text.toList).all isDigit = true ∧
+      q.mag = .int (if isNegChars text.toList then -((Nat.ofDigitChars 10 (stripSign text.toList) 0 : Nat) : Int)
+                    else ((Nat.ofDigitChars 10 (stripSign text.toList) 0 : Nat) : Int)) := by
+  obtain ⟨text, i, hp, hm⟩ := (parse_magnitude_int_iff g t c hg q h).1.mp hi
+  obtain ⟨h1, h2, h3⟩ := pyInt_ok_shape hp
+  exact ⟨text, h1, h2, by rw [hm, h3]⟩
+
 end
 end C17
 end Measured
